@@ -315,7 +315,7 @@ impl Prop for C04 {
     }
     fn runs(&self, tier: Tier) -> u64 {
         match tier {
-            Tier::Quick => 32,
+            Tier::Quick => 16,
             Tier::Thorough => 96,
         }
     }
